@@ -7,6 +7,8 @@ ends in. Sampling calls are observed through E3 (their law, not a draw).
 """
 from __future__ import annotations
 
+import random as pyrandom
+
 import numpy as np
 
 import lightworks as lw
@@ -177,11 +179,14 @@ def sampler_apply(s, w, op):
     elif k == "backend": s.backend = op[1]
     elif k == "read": s.probability_distribution
     elif k == "draw":            # every sampling path once (each may refuse on its own)
+        # sample() draws from Python's global generator (which the seeded calls re-seed from the OS when they finish):
+        # own it before every call, so that a history replays identically
         for call in (lambda: s.sample_N_inputs(40, seed=1), s.sample, lambda: s.sample_N_outputs(3, seed=1),
                      # calls that restrict what is returned (per call: nothing of it may stick to the sampler)
                      lambda: s.sample_N_outputs(3, seed=1, min_detection=1),
                      lambda: s.sample_N_outputs(2, seed=1, post_select=lambda st: st[0] == 0),
                      lambda: s.sample_N_inputs(10, seed=1, min_detection=1, post_select=lambda st: st[0] == 0)):
+            pyrandom.seed(20260927)
             try:
                 call()
             except Exception:  # noqa: BLE001
@@ -263,6 +268,7 @@ def quick_apply(q, w, op):
     elif k == "read": q.probability_distribution
     elif k == "draw":
         for call in (q.sample, lambda: q.sample_N_outputs(2, seed=1)):
+            pyrandom.seed(20260927)
             try:
                 call()
             except Exception:  # noqa: BLE001
@@ -462,7 +468,8 @@ def explore(kind, env, tier, max_depth):
 
         def check_fn(hists):
             acc = kernel.Acc()
-            for hh in hists:
+            fresh_cache.clear()      # memoise within one shard only: which worker gets which shard is up to the pool,
+            for hh in hists:         # and the counters reported must not depend on it
                 check(hh, acc)
             return acc
         if nxt:
